@@ -141,3 +141,6 @@ CLAIMED["C19"] = ("proof",
     "Trusted: Coq kernel (+ stdlib real axioms for the norm bound only); Nash.v (tied by correspondence); ECOS/cvxpy "
     "determinism; that _init_optim_problem rebuilds the problem from prvs_alpha alone.",
     "Coq proof (all histories) + exhaustive small-scope history correspondence")
+
+from manifest_entries2 import NEW  # noqa: E402
+CLAIMED.update(NEW)
